@@ -1,0 +1,58 @@
+//go:build verif
+
+package jsonrpc
+
+import (
+	"sync/atomic"
+	"time"
+	"unsafe"
+)
+
+// VerifEvent describes one firing of an instrumentation point. It only exists
+// in builds with the `verif` tag and is used by external runtime monitors.
+type VerifEvent struct {
+	Point  string      // name of the instrumentation point
+	Client bool        // true when fired on a connection created by a websocket client
+	Conn   uintptr     // identity of the connection object (0 when not tied to one)
+	Arg    interface{} // request id / channel id / attempt number / writer class
+}
+
+var verifHook atomic.Pointer[func(VerifEvent)]
+
+// VerifSetHook installs (or, with nil, removes) the process-wide hook.
+func VerifSetHook(f func(VerifEvent)) {
+	if f == nil {
+		verifHook.Store(nil)
+		return
+	}
+	verifHook.Store(&f)
+}
+
+// VerifSetMaxQueuedFrames changes the frame executor queue capacity used by
+// connections created afterwards and returns the previous value.
+func VerifSetMaxQueuedFrames(n int) int {
+	old := maxQueuedFrames
+	maxQueuedFrames = n
+	return old
+}
+
+// VerifSetReadDeadlineResetInterval changes the slow-read deadline renewal
+// interval and returns the previous value.
+func VerifSetReadDeadlineResetInterval(d time.Duration) time.Duration {
+	old := onReadDeadlineResetInterval
+	onReadDeadlineResetInterval = d
+	return old
+}
+
+func vhook(c *wsConn, point string, arg interface{}) {
+	h := verifHook.Load()
+	if h == nil {
+		return
+	}
+	ev := VerifEvent{Point: point, Arg: arg}
+	if c != nil {
+		ev.Client = c.stop != nil
+		ev.Conn = uintptr(unsafe.Pointer(c))
+	}
+	(*h)(ev)
+}
